@@ -10,10 +10,10 @@ pub open spec fn mode_wf(m: CompiledScannerMode, nmodes: int) -> bool {
 }
 
 /// valid configuration: at least one mode, every mode well formed, transitions lead to existing modes,
-/// the class predicate is a total function
+/// the class predicate is a deterministic function callable on every class id an automaton of the scanner refers to
 pub open spec fn scanner_wf<M: Fn(CharClassID, char) -> bool>(s: ScannerImpl<M>) -> bool {
     &&& s.scanner_modes@.len() >= 1
     &&& forall|i: int| 0 <= i < s.scanner_modes@.len() ==> mode_wf(#[trigger] s.scanner_modes@[i], s.scanner_modes@.len() as int)
-    &&& cls_functional(&*s.match_char_class)
+    &&& forall|i: int| 0 <= i < s.scanner_modes@.len() ==> cls_functional(&*s.match_char_class, core((#[trigger] s.scanner_modes@[i]).dfa))
 }
 
